@@ -1,8 +1,9 @@
 /-
-  The simulation between consecutive passes, part 2: `fetch`, the (nested) head loop, `execute`.
-  Core Lean only.
+  The simulation between consecutive passes, part 2: `fetch`, the (nested) head loop, `execute`;
+  `RH` for the head loop and `execute` (proved together with the simulation: that a loop which
+  iterated ends converged rests on it).  Gate-free programs.  Core Lean only.
 -/
-import SalsaVerif.Proofs.CycleChainSim
+import SalsaVerif.Proofs.CycleChainLoop
 
 namespace SalsaVerif.Proofs.Cycle
 open SalsaVerif.Model.Cycle
@@ -124,13 +125,15 @@ theorem fetch_sim (hNF : NoFallback P) {exec : Nat → St → Res Fetched}
               hS', hle, hpv⟩
 
 /-- a nested head loop of pass `t` that ended in a provisional memo is mirrored by pass `t+1`. -/
-theorem loop_sim (hNF : NoFallback P) {read : Nat → St → Res Fetched}
-    (hR : ReadSpec P env read) (hS : ReadSim P env read) (c : Nat) (rest : List Nat)
+theorem loop_sim (hNF : NoFallback P) (hG : P.NoGate) {read : Nat → St → Res Fetched}
+    (hR : ReadSpec P env read) (hH : ReadRH P env read) (hS : ReadSim P env read)
+    (c : Nat) (rest : List Nat)
     (fuel stamp fuel' stamp' : Nat) (e l r : St) (v : Nat) (hs : List Nat) (l' : St)
     (hIl : Inv P env l) (hIr : Inv P env r) (hIe : Inv P env e) (hSim : Sim e l r)
     (hEe : Ext l' e) (hst : l.stack = c :: rest) (hfr : r.final.lookup c = none)
-    (h : executeMaybeIterate P env read c false (fuel + 1) stamp l = .ok (v, hs, l')) :
-    ∃ v' hs' r', executeMaybeIterate P env read c false (fuel' + 1) stamp' r = .ok (v', hs', r') ∧
+    (hemp : (∀ k ∈ rest, isHead l.prov k = false) → l.prov = [] ∧ l.cache = [])
+    (h : executeMaybeIterate P env read c (fuel + 1) stamp l = .ok (v, hs, l')) :
+    ∃ v' hs' r', executeMaybeIterate P env read c (fuel' + 1) stamp' r = .ok (v', hs', r') ∧
       Sim e l' r' ∧ le v v' ∧ r'.prov = r.prov := by
   have hfl' : l'.final.lookup c = none := by
     cases hq : l'.final.lookup c with
@@ -139,7 +142,7 @@ theorem loop_sim (hNF : NoFallback P) {read : Nat → St → Res Fetched}
       have := hEe.final c u hq
       rw [hSim.fin, this] at hfr; cases hfr
   cases hev : evalM env read (P.node c).body l with
-  | error err => rw [emi_body_error P env read c false fuel stamp l hev] at h; cases h
+  | error err => rw [emi_body_error P env read c fuel stamp l hev] at h; cases h
   | ok res =>
     obtain ⟨v1, hs1, l1⟩ := res
     obtain ⟨hIl1, hst1, hE1, hrel⟩ := evalM_spec P env hR _ l v1 hs1 l1 hIl hev
@@ -155,28 +158,28 @@ theorem loop_sim (hNF : NoFallback P) {read : Nat → St → Res Fetched}
       · exact participantValue_id hNF c x
     -- the right pass, once the left pass is known to end in a provisional memo
     have key : ∀ (w : Nat) (hsl : List Nat), Ext (stCached l1 c w hsl) e →
-        belowOf false l1 = true →
+        belowOf l1 = true →
         ((l1.prov.lookup c = none ∧ w = v1) ∨
           ∃ last, l1.prov.lookup c = some last ∧ w = cycleFn P c last v1) →
-        ∃ v' hs' r', executeMaybeIterate P env read c false (fuel' + 1) stamp' r
+        ∃ v' hs' r', executeMaybeIterate P env read c (fuel' + 1) stamp' r
             = .ok (v', hs', r') ∧
           Sim e (stCached l1 c w hsl) r' ∧ le w v' ∧ r'.prov = r.prov := by
       intro w hsl hEc hb hw
       have hE1e : Ext l1 e := (ext_stCached P env rest w hsl hIl1 hst1').trans hEc
       obtain ⟨v1', hs1', r1, hevr, hS1, hle1, hp1⟩ :=
-        evalM_sim P env hR hS _ e l r v1 hs1 l1 hIl hIr hIe hSim hE1e hev
+        evalM_sim P env hR hS _ (noGate_node hG c) e l r v1 hs1 l1 hIl hIr hIe hSim hE1e hev
       have hbr := hS1.below hb
       cases hlr : r1.prov.lookup c with
       | none =>
         rcases hw with ⟨hl, hw⟩ | ⟨last, hl, hw⟩
         · subst hw
-          refine ⟨_, _, _, emi_part P env read c false fuel' stamp' r hevr hlr hbr, ?_, ?_, hp1⟩
+          refine ⟨_, _, _, emi_part P env read c fuel' stamp' r hevr hlr hbr, ?_, ?_, hp1⟩
           · rw [hpv' hs1' v1']; exact hS1.cached c _ _ hle1
           · rw [hpv' hs1' v1']; exact hle1
         · obtain ⟨w', hw', _⟩ := hS1.provLe c last hl
           rw [hlr] at hw'; cases hw'
       | some last' =>
-        refine ⟨_, _, _, emi_nested P env read c false fuel' stamp' r hevr hlr hbr, ?_, ?_, hp1⟩
+        refine ⟨_, _, _, emi_nested P env read c fuel' stamp' r hevr hlr hbr, ?_, ?_, hp1⟩
         · apply hS1.cached c
           rcases hw with ⟨hl, hw⟩ | ⟨last, hl, hw⟩
           · subst hw; exact le_trans hle1 (cycleFn_bounds hNF c last' v1').1
@@ -192,66 +195,180 @@ theorem loop_sim (hNF : NoFallback P) {read : Nat → St → Res Fetched}
             exact cycleFn_mono P c hle hle1
     cases hl : l1.prov.lookup c with
     | none =>
-      cases hb : belowOf false l1 with
+      cases hb : belowOf l1 with
       | true =>
-        rw [emi_part P env read c false fuel stamp l hev hl hb, hpv v1] at h
+        rw [emi_part P env read c fuel stamp l hev hl hb, hpv v1] at h
         injection h with h; injection h with e1 h; injection h with e2 e3
         subst e1; subst e3
         exact key v1 _ hEe hb (Or.inl ⟨hl, rfl⟩)
       | false =>
-        rw [emi_final P env read c false fuel stamp l hev hl hb] at h
+        rw [emi_final P env read c fuel stamp l hev hl hb] at h
         injection h with h; injection h with e1 h; injection h with e2 e3
         subst e3
         have : ((c, v1) :: l1.final).lookup c = none := hfl'
         rw [lookup_cons_self] at this; cases this
     | some last =>
-      cases hb : belowOf false l1 with
+      cases hb : belowOf l1 with
       | true =>
-        rw [emi_nested P env read c false fuel stamp l hev hl hb] at h
+        rw [emi_nested P env read c fuel stamp l hev hl hb] at h
         injection h with h; injection h with e1 h; injection h with e2 e3
         subst e1; subst e3
         exact key _ _ hEe hb (Or.inr ⟨last, hl, rfl⟩)
       | false =>
         cases hc : converged (cache1Of l1 c (cycleFn P c last v1)) l1.prov with
         | true =>
-          rw [emi_conv P env read c false fuel stamp l hev hl hb hc] at h
+          rw [emi_conv P env read c fuel stamp l hev hl hb hc] at h
           injection h with h; injection h with e1 h; injection h with e2 e3
           subst e3
           rw [stConv_final, cv1_self] at hfl'; cases hfl'
         | false =>
           cases hi : SalsaVerif.Gen.Stamp.IterationStamp.increment_iteration stamp with
           | none =>
-            rw [emi_too P env read c false fuel stamp l hev hl hb hc hi] at h
+            rw [emi_too P env read c fuel stamp l hev hl hb hc hi] at h
             cases h
           | some stamp2 =>
-            rw [emi_iter P env read c false fuel stamp l hev hl hb hc hi] at h
-            have hv1 : le v1 (lfp P env c) := by
-              rw [← lfp_step]
-              exact EvalRel.upper (fun c w hw => hIl1.avail_le P env hw) hrel
-            have hnew : le (cycleFn P c last v1) (lfp P env c) :=
-              (cycleFn_bounds hNF c last v1).2 _ hv1 (hIl1.provLe c last hl)
-            obtain ⟨_, _, hfin⟩ := loop_outer_spec P env hNF hR c rest fuel stamp2 _ v hs l'
-              (iterate_inv P env l1 c rest _ hIl1 hst1' hnew (by rw [hl]; rfl)) hst1'
-              (isHead_stIter l1 c _ (by rw [hl]; rfl)) h
+            rw [emi_iter P env read c fuel stamp l hev hl hb hc hi] at h
+            have hnbl : ∀ k ∈ rest, isHead l.prov k = false := by
+              intro k hk
+              cases hh : isHead l.prov k with
+              | false => rfl
+              | true =>
+                have := (belowOf_false_iff l1 rest c hst1').mp hb k hk
+                rw [isHead_mono hE1 hh] at this; cases this
+            obtain ⟨hp0, hc0⟩ := hemp hnbl
+            have hP := pass_first P env read c rest hR hH hNF l l1 v1 last hs1 hIl hst hp0 hc0
+              hev hl hb
+            obtain ⟨_, _, hfin⟩ := loop_iter_conv P env read c rest hR hS hNF hG fuel stamp2
+              _ _ _ _ _ v hs l' hP h
             rw [hfl'] at hfin; cases hfin
 
-theorem execute_sim (hNF : NoFallback P) : ∀ d, ExecSim P env (execute P env d) := by
+/-- the head loop as `execute` starts it: `RH`, and a loop that does not end in a provisional
+    memo ends with no provisional state at all. -/
+theorem loop_RH (hNF : NoFallback P) (hG : P.NoGate) {read : Nat → St → Res Fetched}
+    (hR : ReadSpec P env read) (hH : ReadRH P env read) (hS : ReadSim P env read)
+    (j : Nat) (rest : List Nat)
+    (fuel stamp : Nat) (s : St) (v : Nat) (hs : List Nat) (s' : St)
+    (hI : Inv P env s) (hst : s.stack = j :: rest)
+    (hemp : (∀ k ∈ rest, isHead s.prov k = false) → s.prov = [] ∧ s.cache = [])
+    (h : executeMaybeIterate P env read j (fuel + 1) stamp s = .ok (v, hs, s')) :
+    RH s s' ∧ (cval s' j = none → s'.prov = [] ∧ s'.cache = []) := by
+  cases hev : evalM env read (P.node j).body s with
+  | error e => rw [emi_body_error P env read j fuel stamp s hev] at h; cases h
+  | ok r =>
+    obtain ⟨v1, hs1, s1⟩ := r
+    obtain ⟨hI1, hst1, hE1, hrel⟩ := evalM_spec P env hR _ s v1 hs1 s1 hI hev
+    have hst1' : s1.stack = j :: rest := hst1.trans hst
+    have hRH1 := evalM_RH P env hR hH _ s v1 hs1 s1 hI hev
+    cases hl : s1.prov.lookup j with
+    | none =>
+      cases hb : belowOf s1 with
+      | true =>
+        rw [emi_part P env read j fuel stamp s hev hl hb] at h
+        injection h with h; injection h with e1 h; injection h with e2 e3
+        subst e3
+        refine ⟨RH_stCached rest _ _ hst1' hRH1, ?_⟩
+        intro hn; rw [cval_cons_self] at hn; cases hn
+      | false =>
+        rw [emi_final P env read j fuel stamp s hev hl hb] at h
+        injection h with h; injection h with e1 h; injection h with e2 e3
+        subst e3
+        have hno : ¬ HeadOn s1 := by
+          intro ⟨k, hk, hp⟩
+          rw [hst1'] at hk
+          cases hk with
+          | head => simp [isHead, hl] at hp
+          | tail _ hk =>
+            have := (belowOf_false_iff s1 rest j hst1').mp hb k hk
+            rw [hp] at this; cases this
+        obtain ⟨hc0, hp0⟩ := hI1.empty hno
+        exact ⟨RH_of_prov_nil hp0, fun _ => ⟨hp0, hc0⟩⟩
+    | some last =>
+      cases hb : belowOf s1 with
+      | true =>
+        rw [emi_nested P env read j fuel stamp s hev hl hb] at h
+        injection h with h; injection h with e1 h; injection h with e2 e3
+        subst e3
+        refine ⟨RH_stCached rest _ _ hst1' hRH1, ?_⟩
+        intro hn; rw [cval_cons_self] at hn; cases hn
+      | false =>
+        cases hc : converged (cache1Of s1 j (cycleFn P j last v1)) s1.prov with
+        | true =>
+          rw [emi_conv P env read j fuel stamp s hev hl hb hc] at h
+          injection h with h; injection h with e1 h; injection h with e2 e3
+          subst e3
+          exact ⟨RH_of_prov_nil rfl, fun _ => ⟨rfl, rfl⟩⟩
+        | false =>
+          cases hi : SalsaVerif.Gen.Stamp.IterationStamp.increment_iteration stamp with
+          | none =>
+            rw [emi_too P env read j fuel stamp s hev hl hb hc hi] at h
+            cases h
+          | some stamp' =>
+            rw [emi_iter P env read j fuel stamp s hev hl hb hc hi] at h
+            have hnb : ∀ k ∈ rest, isHead s.prov k = false := by
+              intro k hk
+              cases hh : isHead s.prov k with
+              | false => rfl
+              | true =>
+                have := (belowOf_false_iff s1 rest j hst1').mp hb k hk
+                rw [isHead_mono hE1 hh] at this; cases this
+            obtain ⟨hp0, hc0⟩ := hemp hnb
+            have hP := pass_first P env read j rest hR hH hNF s s1 v1 last hs1 hI hst hp0 hc0
+              hev hl hb
+            obtain ⟨hp, hc', _⟩ := loop_iter_conv P env read j rest hR hS hNF hG fuel stamp'
+              _ _ _ _ _ v hs s' hP h
+            exact ⟨RH_of_prov_nil hp, fun _ => ⟨hp, hc'⟩⟩
+
+/-- a state with `j` pushed: if no head is active below `j` there is no provisional state. -/
+theorem push_emp {s : St} {j : Nat} (hI : Inv P env s) :
+    (∀ k ∈ s.stack, isHead ({ s with stack := j :: s.stack } : St).prov k = false) →
+      ({ s with stack := j :: s.stack } : St).prov = [] ∧
+      ({ s with stack := j :: s.stack } : St).cache = [] := by
+  intro hnb
+  have hno : ¬ HeadOn s := by
+    intro ⟨k, hk, hp⟩
+    have := hnb k hk
+    rw [show isHead ({ s with stack := j :: s.stack } : St).prov k = isHead s.prov k from rfl,
+      hp] at this
+    cases this
+  obtain ⟨hc0, hp0⟩ := hI.empty hno
+  exact ⟨hp0, hc0⟩
+
+/-- `RH` and the simulation for `execute`, together (induction on the depth fuel). -/
+theorem execute_RH_sim (hNF : NoFallback P) (hG : P.NoGate) :
+    ∀ d, ExecRH P env (execute P env d) ∧ ExecSim P env (execute P env d) := by
   intro d
   induction d with
-  | zero => intro e l r c v hs l' _ _ _ _ _ _ _ _ _ h; simp [execute] at h
+  | zero =>
+    constructor
+    · intro j s v hs s' _ _ _ _ h; simp [execute] at h
+    · intro e l r c v hs l' _ _ _ _ _ _ _ _ _ h; simp [execute] at h
   | succ d ih =>
-    intro e l r c v hs l' hIl hIr hIe hSim hEe hcl hfl hcl' hfr h
-    unfold execute at h ⊢
-    have hcr : c ∉ r.stack := by rw [← hSim.stack]; exact hcl
-    have hcr' : r.cache.lookup c = none :=
-      cval_none_iff.mp (hSim.cacheNone c (cval_none_iff.mpr hcl'))
     have hXd := execute_spec P env hNF d
-    exact loop_sim P env hNF (fetch_spec P env hNF hXd)
-      (fetch_sim P env hNF hXd (execute_RH P env hNF d) ih) c l.stack
-      SalsaVerif.Gen.Stamp.MAX_ITERATIONS _ SalsaVerif.Gen.Stamp.MAX_ITERATIONS _ e
-      { l with stack := c :: l.stack } { r with stack := c :: r.stack } v hs l'
-      (inv_push P env hIl hcl hfl hcl') (inv_push P env hIr hcr hfr hcr') hIe (hSim.push c) hEe
-      rfl hfr h
+    have hR := fetch_spec P env hNF hXd
+    have hH := fetch_RH P env ih.1
+    have hS := fetch_sim P env hNF hXd ih.1 ih.2
+    constructor
+    · intro j s v hs s' hI hj hf hc h
+      unfold execute at h
+      exact loop_RH P env hNF hG hR hH hS j s.stack SalsaVerif.Gen.Stamp.MAX_ITERATIONS _
+        { s with stack := j :: s.stack } v hs s' (inv_push P env hI hj hf hc) rfl
+        (push_emp P env hI) h
+    · intro e l r c v hs l' hIl hIr hIe hSim hEe hcl hfl hcl' hfr h
+      unfold execute at h ⊢
+      have hcr : c ∉ r.stack := by rw [← hSim.stack]; exact hcl
+      have hcr' : r.cache.lookup c = none :=
+        cval_none_iff.mp (hSim.cacheNone c (cval_none_iff.mpr hcl'))
+      exact loop_sim P env hNF hG hR hH hS c l.stack
+        SalsaVerif.Gen.Stamp.MAX_ITERATIONS _ SalsaVerif.Gen.Stamp.MAX_ITERATIONS _ e
+        { l with stack := c :: l.stack } { r with stack := c :: r.stack } v hs l'
+        (inv_push P env hIl hcl hfl hcl') (inv_push P env hIr hcr hfr hcr') hIe (hSim.push c) hEe
+        rfl hfr (push_emp P env hIl) h
+
+theorem execute_RH (hNF : NoFallback P) (hG : P.NoGate) (d : Nat) :
+    ExecRH P env (execute P env d) := (execute_RH_sim P env hNF hG d).1
+
+theorem execute_sim (hNF : NoFallback P) (hG : P.NoGate) (d : Nat) :
+    ExecSim P env (execute P env d) := (execute_RH_sim P env hNF hG d).2
 
 end
 
